@@ -30,4 +30,45 @@ CHECKS = {
         "required_classes": {"verdict:accept": 0.15},
         "assumptions": COMMON_ASSUMPTIONS,
     },
+    "C09": {
+        "tests": [
+            {"name": "TestC09Transparency", "quick": 96000, "thorough": 1600000},
+            {"name": "TestC09Tail", "quick": 96000, "thorough": 1600000},
+        ],
+        "rule": "(1) transparency: programs without spec-level -- and without env-backed options, argv from the C01 sources (accepted and rejected) not containing -- ; "
+                "the trailing block = maximal suffix of tokens not starting with '-' and not the separate-form value of a valued option (spec-independent lexing); "
+                "for EVERY insertion point from the start of the block to the very end, inserting -- must leave acceptance and all bound values unchanged (evaluations count insertion points); "
+                "(2) verbatim tail: specs 'P -- T' (P options only, T one of X... / X [Y...] / [X...] / X Y), argv = sentence of P ++ tail of arbitrary tokens "
+                "(first one non-dash, or an explicit --): accepted with the tail bound verbatim in order iff the arity fits; (3) outcome of ('P -- T', p t) == outcome of ('P T', p -- t); "
+                "plus the reference-model verdict on every run. non-trivial = insertion point with an option before and a token after, or the very-end point on an accepted line, "
+                "or a tail containing a dash-prefixed token; distinct by (program, argv, point/tail)",
+        "required_classes": {"insert:very-end-accepted": 0.05, "insert:opts-before-tokens-after": 0.005, "tail:has-dash-prefixed-token": 0.05, "tail:spec-dd-equals-cmdline-dd": 0.05},
+        "assumptions": COMMON_ASSUMPTIONS + ["argv tokens of the shape '-f-...' (dash after flag letters, whose residue the library reads as --) are set aside and counted"],
+    },
+    "C10": {
+        "tests": [{"name": "TestC10", "quick": 160000, "thorough": 3200000}],
+        "rule": "programs without spec-level --; an item sequence (sentence sampling, then item-level drop/duplicate/insert/swap so rejected lines are included; values non-empty, "
+                "not '-'- or '='-prefixed) is spelled twice independently: per occurrence a random documented spelling and a random folding of adjacent short-spelled occurrences; "
+                "items after a command-line -- are data and kept identical; oracle: identical acceptance and identical bound values, plus the reference-model verdict; "
+                "non-trivial = the two token vectors differ in >= 2 positions and one contains a folded token; distinct by (program, both argvs)",
+        "required_classes": {"different-spelling": 0.2, "verdict:accept": 0.2, "verdict:reject": 0.1},
+        "assumptions": COMMON_ASSUMPTIONS,
+    },
+    "C11": {
+        "tests": [{"name": "TestC11", "quick": 160000, "thorough": 3200000}],
+        "rule": "generator of C10; one adjacent pair of occurrences of different options (before any --) is swapped at item level and both sequences are spelled independently; "
+                "oracle: identical acceptance and bound values, plus the reference-model verdict; non-trivial = a spelling in which an occurrence spans two tokens or sits in a fold; "
+                "distinct by (program, both argvs)",
+        "required_classes": {"swap:two-token-or-fold": 0.2, "verdict:accept": 0.05},
+        "assumptions": COMMON_ASSUMPTIONS,
+    },
+    "C12": {
+        "tests": [{"name": "TestC12", "quick": 24000, "thorough": 480000}],
+        "rule": "C01 programs (spec-level -- allowed); argv from sentence sampling in which would-be env-backed options are omitted at random, optionally token-mutated; "
+                "the same argv is run with no option env-backed and with EVERY non-empty subset of the options env-backed (<= 4 options: all 2^n-1 subsets; above: 8 random subsets); "
+                "evaluations count (case, subset) runs; oracle: accepted(empty) => accepted(E); for specs without -- identical option value lists; reference-model verdict under E; "
+                "non-trivial = E non-empty, accepted under E, and an option of E occurs 0 times (fallback) or >= 2 times on the command line; distinct by (program, argv, E)",
+        "required_classes": {"env-enlarges": 0.01, "both-accept": 0.2},
+        "assumptions": COMMON_ASSUMPTIONS,
+    },
 }
